@@ -103,9 +103,13 @@ def check_refs(case, ctx):
 
     # ---- history: build through append / extend / pop / remove, refit ----------
     live = list(range(n))
+    early = None
     if case['history']:
         k0 = max(1, n // 2)
         obj = References(references=[refs[i] for i in range(k0)], descriptor=dname)
+        # a species that is handed the references now, before they grow and are refitted
+        if dname == 'elements' and case['tcomp']:
+            early = gen.build_statmech(dict(case['target'], elements=dict(case['tcomp'])), references=obj)
         live = list(range(k0))
         rest = list(range(k0, n))
         for h in case['history']:
@@ -223,6 +227,10 @@ def check_refs(case, ctx):
                     base = abs(float(getattr(withr, g)(units=u, T=T)))
                     ctx.close('C10.refs/shift:%s' % g, d_on, exp_shift, rtol=1e-9, atol=1e-11 * (base + sc_e),
                               detail='T=%r comp=%r' % (T, comp))
+                    if early is not None and comp is case['tcomp']:
+                        d_early = getattr(early, g)(units=u, T=T) - getattr(early, g)(units=u, T=T, use_references=False)
+                        ctx.close('C10.refs/shift-seen-by-a-species-built-before-the-refit:%s' % g, d_early, exp_shift, rtol=1e-9,
+                                  atol=1e-11 * (base + sc_e), detail='T=%r comp=%r' % (T, comp))
                     off_val = getattr(withr, g)(units=u, T=T, use_references=False)
                     ctx.close('C10.refs/off=no-references:%s' % g, off_val, getattr(noref, g)(units=u, T=T), rtol=0,
                               atol=0)
